@@ -48,3 +48,12 @@ Print Assumptions C11_app_close_cancels_consumers.
 Example C11_nonvacuous : c11_ok ((1%nat, [{| st_chan := 1%nat; st_op := AIdle; st_script := [[(1%nat, {| f_name := NReturn; f_num := (312)%Z; f_str := ([]%N) |}); (1%nat, {| f_name := NHeader; f_num := (0)%Z; f_str := ([]%N) |})]] |}; {| st_chan := 1%nat; st_op := AIdle; st_script := [[(1%nat, {| f_name := NChClose; f_num := (404)%Z; f_str := ([]%N) |})]] |}; {| st_chan := 1%nat; st_op := (ARpc 0%nat); st_script := [[(1%nat, {| f_name := NDeclareOk; f_num := (1)%Z; f_str := ([]%N) |})]] |}; {| st_chan := 1%nat; st_op := AClose; st_script := [] |}]))
   (chan_model ((1%nat, [{| st_chan := 1%nat; st_op := AIdle; st_script := [[(1%nat, {| f_name := NReturn; f_num := (312)%Z; f_str := ([]%N) |}); (1%nat, {| f_name := NHeader; f_num := (0)%Z; f_str := ([]%N) |})]] |}; {| st_chan := 1%nat; st_op := AIdle; st_script := [[(1%nat, {| f_name := NChClose; f_num := (404)%Z; f_str := ([]%N) |})]] |}; {| st_chan := 1%nat; st_op := (ARpc 0%nat); st_script := [[(1%nat, {| f_name := NDeclareOk; f_num := (1)%Z; f_str := ([]%N) |})]] |}; {| st_chan := 1%nat; st_op := AClose; st_script := [] |}]))) = true.
 Proof. vm_compute. reflexivity. Qed.
+
+(* ---------- close() from several threads ---------- *)
+From AV Require Import Model.Src Gen.GenSrc Model.SrcShape.
+(* read off the source on every run: the test "is the channel open" and the move
+   to CLOSING are one step under _close_lock; exactly one Channel.Close request
+   follows it; the channel is marked closed in the finally block *)
+Theorem C11_source_close_once : close_shape_ok = true.
+Proof. vm_compute. reflexivity. Qed.
+Print Assumptions C11_source_close_once.
